@@ -389,7 +389,7 @@ pub fn run(tier: Tier, replay: Option<&str>) {
     }
     let ctx = Ctx::new("C20", tier);
     let th = tier.thorough();
-    let depth = if th { 4 } else { 3 };
+    let depth = if crate::ctx::deep() { 6 } else if th { 4 } else { 3 };
     let mut cfgs = vec![];
     for region in if th { vec!["EU868", "US915", "AS923_1"] } else { vec!["EU868", "US915"] } {
         for (fu, fd) in [(None, None), (Some(0xFFFEu32), Some(Some(0xFFFEu32))), (Some(0xFFFF_FFFE), Some(Some(0))), (Some(0x1_0000), Some(Some(0xFFFF_BFFF))), (Some(5), Some(None))] {
